@@ -1064,6 +1064,7 @@ pub fn project(name: &str, trace: &[Value]) -> Vec<Value> {
         "routing" => crate::proj_c09::routing(trace),
         "migration" => crate::proj_c15::migration(trace),
         "dgram" => crate::proj_c16::dgram(trace),
+        "zerortt" => crate::proj_c17::zerortt(trace),
         "master" => trace.to_vec(),
         o => panic!("unknown projection {o}"),
     }
